@@ -905,3 +905,69 @@ B("c17-extra-directive", ["C17"], ["R29"],
 K("c10k-decimal-mark-equivalent",
   ("parsers", "                    if \",\" in value:\n                        value = value.replace(\",\", \".\")",
    "                    value = value.replace(\",\", \".\")"))
+
+
+# ========================================= R20 - R22 / R33 errors and bounds ==
+B("c09-syntax-error-loses-valueerror", ["C09", "C19"], ["R20"],
+  ("exceptions", "class ISO8601SyntaxError(IsodatetimeError, ValueError):",
+   "class ISO8601SyntaxError(IsodatetimeError):"), canary=True)
+B("c09-keyerror-in-get-time-info", ["C09", "C19"], ["R20"],
+  ("parsers", "        raise ISO8601SyntaxError(\"time\", time_string)",
+   "        raise KeyError(time_string)"))
+B("c09-runtimeerror-in-duration-parse", ["C09"], ["R20"],
+  ("parsers", "            if timepoint.get_is_week_date():\n                raise ISO8601SyntaxError(\"duration\", expression)",
+   "            if timepoint.get_is_week_date():\n                raise RuntimeError(\"week date duration\")"))
+B("c17-strftime-raises-keyerror", ["C17"], ["R20", "R29"],
+  ("parser_spec", "        raise StrftimeSyntaxError(strftime_token)",
+   "        raise KeyError(strftime_token)"))
+B("c09-broad-except-swallows", ["C09"], ["R20"],
+  ("parsers", "        except Exception:\n            raise StrptimeConversionError(source, regex)",
+   "        except Exception:\n            return None"))
+B("c09-check-bounds-only-when-not-truncated", ["C09"], ["R21"],
+  ("data", "                    if self._day_of_week is None:\n                        self._day_of_week = 1\n            self._check_bounds()",
+   "                    if self._day_of_week is None:\n                        self._day_of_week = 1\n            if not self._truncated:\n                self._check_bounds()"),
+  canary=True)
+B("c09-field-assigned-after-check", ["C09"], ["R21"],
+  ("data", "                        self._day_of_week = 1\n            self._check_bounds()",
+   "                        self._day_of_week = 1\n            self._check_bounds()\n            self._hour_of_day = hour_of_day if hour_of_day is not None else self._hour_of_day"))
+B("c09-second-is-duration-user", ["C09"], ["R21"],
+  ("datetimeoper", "            time_point = self.time_point_parser.parse(\n                    time_point_str,\n                    dump_as_parsed=True)",
+   "            time_point = self.time_point_parser.parse(\n                    time_point_str,\n                    dump_as_parsed=True, is_duration=True)"))
+B("c09-empty-instance-outside-copy", ["C09", "C16"], ["R21"],
+  ("data", "    reference_timepoint = TimePoint(\n        **CALENDAR.UNIX_EPOCH_DATE_TIME_REFERENCE_PROPERTIES)\n    if not utc:",
+   "    reference_timepoint = TimePoint(is_empty_instance=True)\n    if not utc:"))
+B("c09-minute-60-admitted", ["C09"], ["R22"],
+  ("data", "            _bounds_checker(self._minute_of_hour, \"minute_of_hour\",\n                            min_val=0, upper_val=CALENDAR.MINUTES_IN_HOUR)",
+   "            _bounds_checker(self._minute_of_hour, \"minute_of_hour\",\n                            min_val=0, max_val=CALENDAR.MINUTES_IN_HOUR)"),
+  canary=True)
+B("c09-24xx-guard-dropped", ["C09"], ["R22"],
+  ("data", "        if self._hour_of_day == CALENDAR.HOURS_IN_DAY:\n"
+           "            _bounds_checker(self._minute_of_hour, \"minute_of_hour\",\n"
+           "                            min_val=0, max_val=0)\n"
+           "            _bounds_checker(self._second_of_minute, \"second_of_minute\",\n"
+           "                            min_val=0, max_val=0)\n"
+           "        else:\n"
+           "            _bounds_checker(self._minute_of_hour, \"minute_of_hour\",\n"
+           "                            min_val=0, upper_val=CALENDAR.MINUTES_IN_HOUR)\n"
+           "            _bounds_checker(self._second_of_minute, \"second_of_minute\",\n"
+           "                            min_val=0, upper_val=CALENDAR.SECONDS_IN_MINUTE)",
+   "        _bounds_checker(self._minute_of_hour, \"minute_of_hour\",\n"
+   "                        min_val=0, upper_val=CALENDAR.MINUTES_IN_HOUR)\n"
+   "        _bounds_checker(self._second_of_minute, \"second_of_minute\",\n"
+   "                        min_val=0, upper_val=CALENDAR.SECONDS_IN_MINUTE)"))
+B("c09-month-zero-admitted", ["C09"], ["R22"],
+  ("data", "        _bounds_checker(self._month_of_year, \"month_of_year\",\n                        min_val=1, max_val=CALENDAR.MONTHS_IN_YEAR)",
+   "        _bounds_checker(self._month_of_year, \"month_of_year\",\n                        min_val=0, max_val=CALENDAR.MONTHS_IN_YEAR)"))
+B("c09-bounds-checker-exclusive-max", ["C09"], ["R22"],
+  ("data", "             (max_val is not None and value > max_val) or",
+   "             (max_val is not None and value >= max_val) or"))
+B("c09-weekday-check-dropped", ["C09"], ["R22"],
+  ("data", "        _bounds_checker(self._day_of_week, \"day_of_week\",\n                        min_val=1, max_val=CALENDAR.DAYS_IN_WEEK)\n", ""))
+B("c09-zone-sign-conflict-admitted", ["C09", "C06"], ["R22"],
+  ("data", "            if hours > 0:\n                min_minutes = 0\n            elif hours < 0:\n                max_minutes = 0\n", ""))
+K("c09k-bounds-keyword-order",
+  ("data", "        _bounds_checker(self._day_of_week, \"day_of_week\",\n                        min_val=1, max_val=CALENDAR.DAYS_IN_WEEK)",
+   "        _bounds_checker(self._day_of_week, \"day_of_week\",\n                        max_val=CALENDAR.DAYS_IN_WEEK, min_val=1)"))
+K("c09k-new-valueerror-raise",
+  ("parsers", "        raise ISO8601SyntaxError(\"time\", time_string)",
+   "        raise ValueError(\"Invalid ISO 8601 time representation: %s\" % time_string)"))
